@@ -4,6 +4,18 @@ VERIF = os.path.dirname(os.path.dirname(os.path.abspath(__file__)))
 ALL = ["C%02d" % i for i in range(1, 21)]
 
 CLAIMS = {
+ "C02": dict(
+    text="MathComp theorems over any commutative ring, any derivation (any differentiable parametrisation; applied twice: second "
+         "order), any size and number of columns: the tangent of A X - M X E = B; the four outputs of the backward pass (grad_B = V, "
+         "-V X^T, V (XE)^T, diag(V^T M X)) with V solving the transposed system pair with every tangent to <G, dX> (adjoint identity); "
+         "inputs that do not influence X get zero; the branch without E/M is the instance M=1, E=0. The executable Gallina model of "
+         "the backward formulas runs at IEEE binary64 (Gauss-Jordan) against autograd through the public solve for all forward x "
+         "backward method combinations (2^-24).",
+    note="Trusted: Coq kernel + vm_compute + PrimFloat; autograd's chain rule through A.mm/M.mm; harness. Second order, matrix-free / "
+         "composed / shared-parameter operators, batches, complex128 (conjugation placement) and unused inputs are compared on the "
+         "implementation with a dense differentiable reference graph.",
+    technique="Coq/MathComp proof (matrix algebra under an arbitrary derivation) + executable backward-formula correspondence",
+    ref="DESIGN.md section 7, C02"),
  "C01": dict(
     text="Coq theorems: for any carrier / operator / number of columns / options, a silent return of cg and bicgstab carries "
          "residual norms of the RETURNED iterate below max(rtol|b_j|, atol) for every column; MathComp (any field, any size): one "
